@@ -31,13 +31,17 @@ MAIN_LINES = [
     "lda csym", ".align 4", "rts", '.segment "default" { seg1: nop }', '.segment "default" { .segment "default" { seg2: nop } }',
     '.segment "default" {\n  segl: nop\n  .segment "default" {\n    jmp segl\n  }\n}',
 ]
+# every import form: all / specific, with and without `as`, several arguments, dotted paths, `* as ns`, with a parameter block
 IMPORTS = ['.import * from "b.asm"', '.import csym from "c.asm"', '.import * from "c.asm"', '.import bsym from "b.asm"',
-           '.import bsym as alias from "b.asm"', '.import * from "missing.asm"']
+           '.import bsym as alias from "b.asm"', '.import * from "missing.asm"', '.import bsym, bscope as bs2 from "b.asm"',
+           '.import * as ns from "c.asm"', '.import csym as c1, cscope as c2 from "c.asm"',
+           '.import * from "b.asm" { .const bk2 = 1 }', '.import bsym from "b.asm" {\n  .const bk3 = 2\n}',
+           '.import bscope.binner as deep from "b.asm"', '.import   bsym   as   wide   from   "b.asm"']
 B_LINES = ["bsym: nop", "bscope: { binner: rts }", ".const bk = 7", "lda #bk", "jmp bsym", "/// doc for b\nbdoc: nop",
-           '.import * from "c.asm"', "nop // €€", '.test "tb" { brk }', "lda bscope.binner", '.import * from "main.asm"',
+           '.import * from "c.asm"', "nop // €€", '.test "tb" { brk }', "lda bscope.binner", '.import * from "main.asm"', '.import csym as viab from "c.asm"',
            '.segment "default" { bseg: nop }']
 C_LINES = ['.test "tc" { brk }', "csym: nop", "cscope: { cinner: rts }", ".const ck = 9", "ldy #ck", "jmp csym", "nop /* \U0001F600 */",
-           '.import * from "b.asm"', '.import * from "c.asm"']      # cyclic with b.asm's import of c.asm / a self-import
+           '.import * from "b.asm"', '.import * from "c.asm"', '.import bsym as viac, bk from "b.asm"']      # cyclic with b.asm's import of c.asm / a self-import
 ERROR_LINES = ["lda", "lda undefined_name", ")", "foo bar", ".const", "jmp (", "lda #", '.import * from "nowhere.asm"', "}", "{",
                "start: nop", "K"]
 POOLS = {"main.asm": MAIN_LINES, "b.asm": B_LINES, "c.asm": C_LINES}
@@ -69,7 +73,7 @@ def split_lines(text):
 IDENT = re.compile(r"[A-Za-z_][A-Za-z0-9_]*")
 # names the line pools define (labels, constants, macros, import aliases): positions where rename / definition have answers
 SYMBOLS = {"seg1", "seg2", "segl", "bseg", "start", "data", "inner", "k", "v", "mac", "arg", "local", "doc", "bsym", "bscope", "binner", "bk", "bdoc", "csym",
-           "cscope", "cinner", "ck", "alias"}
+           "cscope", "cinner", "ck", "alias", "bs2", "ns", "c1", "c2", "deep", "wide", "viab", "viac"}
 
 
 def utf16_len(s):
@@ -180,6 +184,13 @@ def gen_request(rng, buffers, disk, method=None, file=None, cls=None):
     return ev
 
 
+def tokens_of_finished_text(rng, events, buffers, disk, f):
+    """semantic tokens exist only for text that parses: ask for them right after a whole-text event (not only in the middle of
+    typing sequences, where the line being typed is a parse error)"""
+    if rng.random() < 0.6:
+        events.append(gen_request(rng, buffers, disk, method="textDocument/semanticTokens/full", file=f))
+
+
 def gen_history(rng, max_events=40):
     disk = {}
     for f in FILES:
@@ -193,6 +204,7 @@ def gen_history(rng, max_events=40):
         t = gen_text(rng, "main.asm")
         buffers["main.asm"] = t
         events.append({"ev": "open", "file": "main.asm", "text": t})
+        tokens_of_finished_text(rng, events, buffers, disk, "main.asm")
     while len(events) < target:
         r = rng.random()
         closed = [f for f in FILES if f not in buffers]
@@ -201,11 +213,13 @@ def gen_history(rng, max_events=40):
             t = disk[f] if (f in disk and rng.random() < 0.5) else gen_text(rng, f)
             buffers[f] = t
             events.append({"ev": "open", "file": f, "text": t})
+            tokens_of_finished_text(rng, events, buffers, disk, f)
         elif r < 0.20 and buffers:
             f = rng.choice(sorted(buffers))
             t = gen_text(rng, f)
             buffers[f] = t
             events.append({"ev": "change", "file": f, "text": t})
+            tokens_of_finished_text(rng, events, buffers, disk, f)
         elif r < 0.32 and buffers:
             f = rng.choice(sorted(buffers))
             for t in mutate_typing(rng, buffers[f], min(rng.randrange(2, 9), target - len(events))):
@@ -238,10 +252,12 @@ def gen_history(rng, max_events=40):
                 t = pad + gen_text(rng, f, broken=False)
                 events.append({"ev": "open" if f not in buffers else "change", "file": f, "text": t})
                 buffers[f] = t
-            t = "\n".join(rng.sample(['.import * from "b.asm"', '.import * from "c.asm"', "start: nop", "lda bsym", "jmp csym"], 4)) + "\n"
+            t = "\n".join(rng.sample(['.import * from "b.asm"', '.import * from "c.asm"', "start: nop", "lda bsym", "jmp csym",
+                                      rng.choice(IMPORTS)], 4)) + "\n"
             events.append({"ev": "open" if "main.asm" not in buffers else "change", "file": "main.asm", "text": t})
             buffers["main.asm"] = t
             events.append(gen_request(rng, buffers, disk, method="workspace/symbol", file="main.asm"))
+            events.append(gen_request(rng, buffers, disk, method="textDocument/semanticTokens/full", file=rng.choice(["main.asm", "b.asm", "c.asm"])))
             for f in rng.sample(["main.asm", "b.asm", "c.asm"], 2):
                 events.append(gen_request(rng, buffers, disk, method="textDocument/documentSymbol", file=f))
             # tests of imported files must not show up as lenses of the importing document
